@@ -214,7 +214,7 @@ def gen_trace(seed, world, tier, mode=None, chunk=None):
                 caps = [None, R.randrange(n), n - 1] if prec == "none" else [None]
             for cap in caps:
                 _solve_steps(steps, sysd, 0, tol, prec, cap, storage, jitter, R)
-        sc = R.choice([0, 0, -6, -3, 3, 6])
+        sc = R.choice([0, 0, -6, -3, 3, 6, R.randint(-6, 6), R.randint(-6, -1)])   # every decade of the range
         if sc != 0:
             # scaled twin of the system; half of the time at a tight tolerance, where absolute
             # thresholds inside the iteration (if any) are most likely to interfere
